@@ -283,6 +283,10 @@ def gen_spec(rng, n, length, flavour="gaussian", p_sym=0.0, p_measured=0.0, matr
     g2 = [c for c in GATES2 if flavour != "gaussian" or c not in NON_GAUSSIAN]
     if flavour == "fock":
         g2 = [c for c in g2 if c not in ("MZgate", "sMZgate")]
+        # the truncated cubic phase gate is unitary (no trace loss) but leaves polynomial tails up to the cutoff,
+        # so sequences like V D D V† do not converge with the cutoff; its additivity is checked exactly by the
+        # merge-law oracle instead (V V = V there, no other gate after it)
+        g1 = [c for c in g1 if c != "Vgate"]
     preps = [c for c in PREPS if flavour != "gaussian" or c not in NON_GAUSSIAN]
     sym_classes = {c for c in list(g1) + list(g2) if c != "Fouriergate" and rng.random() < p_sym}
     ops, measured = [], []
